@@ -132,6 +132,13 @@ class Run(RunBase):
         name = "calc{}".format(len(groups))
         calc.addhdf5(h.create_group(name))
         h.close()
+        if mode == "copied":
+            # legal storage event: the user moves the image into another file with HDF5's own group copy
+            f2 = SimFile()
+            with h5py.File(io.BytesIO(f.image()), "r") as src, h5py.File(f2, "w", libver=lv) as dst:
+                src.copy(src[name], dst, name=name)
+            f = f2
+            self.faults["image-copied-to-other-file"] += 1
         groups.append((name, N, NGF, gen))
         self.disk[slot] = {"data": f.image(), "groups": groups, "core": None, "writes": len(f.log)}
         self.probes["image-writes"] += len(f.log)
@@ -254,12 +261,12 @@ class Run(RunBase):
         if kind == "component":
             return {"op": "component", "what": rng.choice(COMPONENTS), "arg": rng.randrange(1 << 16)}
         if kind == "save":
-            return {"op": "save", "slot": rng.choice("abc"), "mode": rng.choice(("new", "append", "overwrite")),
+            return {"op": "save", "slot": rng.choice("abc"), "mode": rng.choice(("new", "append", "overwrite", "copied")),
                     "libver": rng.choice(("earliest", "latest")), "driver": rng.choice(("fileobj", "fileobj", "core"))}
         return {"op": "restart", "slot": rng.choice("abc"), "group": rng.randrange(4), "keep_open": rng.random() < 0.3}
 
     def gen_fork(self, rng):
-        return {"op": "fork", "slot": rng.choice("abc"), "mode": rng.choice(("new", "append", "overwrite")),
+        return {"op": "fork", "slot": rng.choice("abc"), "mode": rng.choice(("new", "append", "overwrite", "copied")),
                 "libver": rng.choice(("earliest", "latest")), "driver": rng.choice(("fileobj", "fileobj", "core")),
                 "keep_open": rng.random() < 0.3}
 
@@ -713,16 +720,28 @@ class Run(RunBase):
                 if any(not np.array_equal(x, y) for x, y in zip(ra, rb)):
                     self.fail("component-vectorstars", "{} differs after reload".format(fn))
         elif what == "taylor":
-            tj = calc.GFcalc.Taylorjumps
+            tj = list(calc.GFcalc.Taylorjumps)
             T = PowerExpansion.Taylor3D if self.dim == 3 else PowerExpansion.Taylor2D
+            # once rates have been set the GF calculator also holds derived expansions: the rate expansion, its
+            # rotated form and the inverted one (powers from n = -2 upwards, l up to Lmax): all saveable objects
+            g = calc.GFcalc
+            for name in ("omega_Taylor", "omega_Taylor_rotate", "g_Taylor"):
+                if isinstance(getattr(g, name, None), T):
+                    tj.append(getattr(g, name))
+                    self.probes["taylor-derived-available"] += 1
+            if isinstance(getattr(g, "gT_ij", None), tuple):
+                tj.append(g.gT_ij[0][0])
+                tj.append(g.gT_ij[-1][0])
             t = tj[arg % len(tj)]
+            if any(n < 0 for n, l, c in t.coefflist):
+                self.probes["taylor-negative-power"] += 1
             t2 = self.roundtrip(t.addhdf5, T.loadhdf5)
             da = {(int(n), int(l)): c for n, l, c in t.coefflist}
             db = {(int(n), int(l)): c for n, l, c in t2.coefflist}
             if sorted(da) != sorted(db) or any(not np.array_equal(da[k], db[k]) for k in da):
                 self.fail("component-taylor", "coefficients differ after reload")
-            u = np.array([rnd.uniform(-1, 1) for _ in range(self.dim)])
-            fn = {(n, l): (lambda x, n=n: x ** n) for (n, l) in t.nl()}
+            u = np.array([rnd.uniform(0.2, 1) * rnd.choice((-1, 1)) for _ in range(self.dim)])
+            fn = {(n, l): (lambda x, n=n: x ** float(n)) for (n, l) in t.nl()}
             if not np.array_equal(t(u, fn), t2(u, fn)):
                 self.fail("component-taylor", "values at {} differ after reload".format(u))
             pa, pb = (t * t).reduce(), (t2 * t2).reduce()
@@ -750,7 +769,11 @@ class Run(RunBase):
             ok = np.allclose(crys.lattice, c2.lattice, rtol=0, atol=1e-12) and crys.chemistry == c2.chemistry and \
                 len(crys.basis) == len(c2.basis) and all(
                     len(a) == len(b) and all(np.allclose(x, y, rtol=0, atol=1e-12) for x, y in zip(a, b))
-                    for a, b in zip(crys.basis, c2.basis)) and len(crys.G) == len(c2.G) and crys.N == c2.N
+                    for a, b in zip(crys.basis, c2.basis)) and crys.N == c2.N
+            # the simplified form holds lattice, basis, chemistry, spins and threshold only: a crystal built with
+            # NOSYM=True legitimately comes back with its full group, so the group is compared only otherwise
+            if self.w["crystal"] != "scnosym" and what != "yaml:crystal-extra":
+                ok = ok and len(crys.G) == len(c2.G)
             if not ok:
                 self.fail("yaml-crystal", "simpleYAML()/fromdict() round trip changes the crystal")
             return
@@ -846,8 +869,10 @@ class Engine(object):
         names = ALL_WORLDS if self.tier == "thorough" else QUICK_WORLDS
         c = rng.choice(names)
         ranges = rng.choice(([1], [1], [2], [1, 2], [1, 2]))
-        if c in ("hcp", "b2disp", "tet2w") and self.tier != "thorough" and ranges != [1] and rng.random() < 0.6:
+        if c in ("hcp", "b2disp", "tet2w", "mono") and self.tier != "thorough" and ranges != [1] and rng.random() < 0.6:
             ranges = [1]
+        if c == "scnosym" and not (self.tier == "thorough" and rng.random() < 0.15):
+            ranges = [1]          # 189 vector stars at range 2 (9 s per build): thorough tier only, rarely
         grids = rng.choice(([2], [2, 3], [2, 3])) if self.tier != "thorough" else rng.choice(([2], [2, 3], [3, 4], [2, 4]))
         if self.tier == "thorough" and c in ("square", "tria", "honey", "rect2w", "rect4i", "triadisp") and rng.random() < 0.3:
             ranges = rng.choice(([1, 3], [2, 3], [1, 2, 3]))     # deeper thermodynamic ranges where they are cheap
